@@ -49,6 +49,8 @@ def header(draw, size):
     if kind == "lenient":
         return draw(st.sampled_from(["bytes=+1-5", "bytes= 1-5", "bytes=1 -5", "bytes=1- 5", "bytes=01-05", "bytes=1-5 ", "bytes=-0"]))
     return draw(st.sampled_from(["bytes=", "bytes=-", "bytes=a-b", "bytes=1-2-3", "bytes=5", "=0-5", "bytes=0x1-0x5", "bytes=1.5-2", "bytes=--5", "junk",
+                                  # numerals that Python's int() reads but RFC 7233's 1*DIGIT does not: digit-group underscores, non-ASCII decimal digits
+                                  "bytes=1_0-2_0", "bytes=0-1_0", "bytes=-1_0", "bytes=\u0661-\u0662", "bytes=-\u0663", "bytes=\uff11-",
                                   # (sent as the single byte 0xff: a header value that is not even UTF-8 text)
                                   "bytes=\u00ff-5", "bytes=0-5,\u00ff", "\u00ffbytes=0-1", "bytes=0-\u00ff"]))
 
